@@ -176,8 +176,21 @@ def check(ctx: Ctx) -> None:
         ctx.violation("R13.1", "_generate_b_vector:parts", NN, gb.node, "the right-hand side must pair −Im Z with the imaginary kernel and Re Z with the real kernel")
     ni = model.fi(NN, "_normalize_impedance")
     ctx.instance("R13.1", "normalisation: R_inf = Re Z(high f), R_pol = Re Z(low f) − Re Z(high f), Z_norm = (Z − R_inf)/R_pol")
-    t = norm(ni.node)
-    if "R_inf: float = Z[0].real" in t and "Z_norm: ComplexImpedances = Z - R_inf" in t and "R_pol: float = Z_norm[-1].real - Z_norm[0].real" in t and "Z_norm /= R_pol" in t:
+    # interpreted on a symbolic spectrum of three points (sa.miniinterp + sa.nplite): the function is rational in the entries
+    from ..miniinterp import InterpRaise as _IR, Mini as _Mini, module_globals as _mg
+    from ..nplite import NP_STUBS as _NPS, NArr as _NArr
+    aa = [sp.Symbol(f"a{i}", real=True) for i in range(3)]
+    bb = [sp.Symbol(f"b{i}", real=True) for i in range(3)]
+    Zs = _NArr([a_ + sp.I * b_ for a_, b_ in zip(aa, bb)])
+    norm_ok = False
+    try:
+        out_ = _Mini(_mg(ctx.repo.modules[NN].tree, dict(_NPS))).call_function(ni.node, {"Z": Zs})
+        Zn, Rinf, Rpol = out_
+        norm_ok = sp.simplify(Rinf - aa[0]) == 0 and sp.simplify(Rpol - (aa[2] - aa[0])) == 0 \
+            and all(sp.simplify(z_ - ((aa[i] + sp.I * bb[i]) - aa[0]) / (aa[2] - aa[0])) == 0 for i, z_ in enumerate(Zn))
+    except (_IR, AnalysisError, ValueError, TypeError):
+        norm_ok = False
+    if norm_ok:
         ctx.ok()
     else:
         ctx.violation("R13.1", "_normalize_impedance:definition", NN, ni.node, "the normalisation of the impedance no longer defines R_inf / R_pol as the high-frequency intercept and the polarisation resistance")
@@ -185,7 +198,14 @@ def check(ctx: Ctx) -> None:
     ctx.instance("R13.1", "γ = g·R_pol with g from scipy.optimize.nnls")
     t = norm(ent.node)
     sv = norm(model.fi(NN, "_solve").node)
-    if "gamma: Gammas = g_tau * R_pol" in t and "g_tau = _solve(A_tikh, b, maxiter)" in t and "from scipy.optimize import nnls" in sv and "return nnls(A, b, maxiter=maxiter)[0]" in sv:
+    gdef = [n for n in walk_ordered(ent.node) if isinstance(n, (ast.Assign, ast.AnnAssign)) and n.value is not None and norm(n.targets[0] if isinstance(n, ast.Assign) else n.target) == "gamma"]
+    g_ok = False
+    for n_ in gdef:
+        try:
+            g_ok = g_ok or sp.simplify(sp.sympify(norm(n_.value), locals={"g_tau": sp.Symbol("g_tau"), "R_pol": sp.Symbol("R_pol")}) - sp.Symbol("g_tau") * sp.Symbol("R_pol")) == 0
+        except Exception:
+            pass
+    if g_ok and "g_tau = _solve(A_tikh, b, maxiter)" in t and "from scipy.optimize import nnls" in sv and "return nnls(A, b, maxiter=maxiter)[0]" in sv:
         ctx.ok()
     else:
         ctx.violation("R13.1", "calculate_drt_tr_nnls:gamma", NN, ent.node, "γ must be the non-negative least-squares solution times R_pol")
